@@ -8,7 +8,18 @@ mod common;
 static JOB_STARTED_MS: AtomicU64 = AtomicU64::new(0);
 static JOB_SEQ: AtomicU64 = AtomicU64::new(0);
 
+/// CPU time consumed by this process so far (ms).  The watchdog budgets CPU time, not wall-clock time: on a loaded
+/// machine a starved job does not run out of budget, a spinning one does.
 fn now_ms() -> u64 {
+    if let Ok(s) = std::fs::read_to_string("/proc/self/stat") {
+        if let Some(rest) = s.rsplit(')').next() {
+            let f: Vec<&str> = rest.split_whitespace().collect();
+            if f.len() > 12 {
+                let ticks = f[11].parse::<u64>().unwrap_or(0) + f[12].parse::<u64>().unwrap_or(0);
+                return ticks * 10 + 1;
+            }
+        }
+    }
     std::time::SystemTime::now().duration_since(std::time::UNIX_EPOCH).unwrap().as_millis() as u64
 }
 
